@@ -14,7 +14,7 @@ RULE = ("exception codes 0..255 x {read, write, write-multi} x {udp-rtu, tcp} x 
         "(transport, keep-alive, command kind, code, j, delay, entry) tuples")
 ASSUMPTIONS = ["reason texts are the standard Modbus exception names (table copied from the specification into refcodec)",
                "virtual clock: 'at once' means zero virtual time between delivery of the exception frame and the return"]
-MUST = ["two_tcp_objects_overlapping", "command_for_another_unit", "tcp_exception_with_wrong_mbap_length", "second_request_rejected", "rejected_after_lone_fragment", "rejected_udp", "rejected_tcp", "after_drops", "delayed_exception", "unknown_code", "public_entry"]
+MUST = ["public_entry_dt", "named_setting_write", "two_tcp_objects_overlapping", "command_for_another_unit", "tcp_exception_with_wrong_mbap_length", "second_request_rejected", "rejected_after_lone_fragment", "rejected_udp", "rejected_tcp", "after_drops", "delayed_exception", "unknown_code", "public_entry"]
 EXHAUSTIVE = {"quick": True, "thorough": True}
 EPS = 1e-6
 
@@ -23,12 +23,16 @@ def scenario(transport, ka, T, R, kind, code, j, delay, entry):
     framing = "rtu" if transport == "udp" else "tcp"
     if entry == "public":
         step = ["rsensor", 400] if kind == "read" else ["wsetting", 400, -2]
+    elif entry == "public-dt":          # the DT family class has its own copies of read_sensor / read_setting / write_setting
+        step = ["rsensor", 400] if kind == "read" else ["wsetting", 400, -2]
+    elif entry == "named":              # write of a NAMED setting (single-register write; ET and DT offer 'grid_export_limit')
+        step = ["api", "write_setting", "grid_export_limit", 50]
     elif entry == "unit":      # the command object was built for unit 0x7F / 0x11, the transport object for the inverter's default address
         step = ["unitcmd", kind, 0x7F if code % 2 else 0x11, 400, {"read": 3, "write": -2, "multi": "00010002fffe"}[kind]]
     else:
         step = {"read": ["read", 400, 3], "write": ["write", 400, -2], "multi": ["multi", 400, "00010002fffe"]}[kind]
     return {"transport": transport, "framing": framing, "keep_alive": ka, "T": T, "R": R, "code": code, "j": j,
-            "kind": kind, "entry": entry, "delay": delay,
+            "kind": kind, "entry": entry, "delay": delay, **({"family": "DT"} if entry in ("public-dt",) or (entry == "named" and code % 2) else {}),
             "script": ["drop"] * j + [["exc", code, delay]], "after": "drop",
             "tasks": [{"start": 0.0, "steps": [step]}]}
 
@@ -107,6 +111,10 @@ def check_run(sc, run, part: Part):
             part.count("public_entry")
         if sc["entry"] == "unit":
             part.count("command_for_another_unit")
+        if sc["entry"] == "public-dt":
+            part.count("public_entry_dt")
+        if sc["entry"] == "named":
+            part.count("named_setting_write")
         if sc.get("second"):
             part.count("second_request_rejected")
         if sc.get("frag_first"):
@@ -198,6 +206,11 @@ def run_shard(spec):
                     run_case(scenario(spec["transport"], spec["ka"], T, R, spec["kind"], code, j, 0.0, "public"), part)
             for j in (0, 1):
                 run_case(scenario(spec["transport"], spec["ka"], T, R, spec["kind"], code, j, 0.0, "unit"), part)
+            if spec["kind"] != "multi":
+                run_case(scenario(spec["transport"], spec["ka"], T, R, spec["kind"], code, 0, 0.0, "public-dt"), part)
+            if spec["kind"] == "write":
+                for j in (0, 1):
+                    run_case(scenario(spec["transport"], spec["ka"], T, R, "write", code, j, 0.0, "named"), part)
             if code % 16 == 2 or code in (1, 3, 4, 6):
                 for gap, delay in ((0.5 * T, 0.8 * T), (0.25 * T, 0.9 * T), (None, 0.5 * T), (None, 0.0)):
                     run_case(scenario_second(spec["transport"], spec["ka"], T, R, spec["kind"], code, gap, delay), part)
